@@ -11,7 +11,8 @@ def tree_files(tree):
     """[(components, bytes)] of a tree description."""
     out = []
     for f in tree["files"]:
-        out.append((list(f["path"]), content(alpha.tree_key(tree, f), f["size"], f.get("gen", 0))))
+        out.append((list(f["path"]), content(alpha.tree_key(tree, f), f["size"], f.get("gen", 0),
+                                             mode=f.get("mode", "rand"))))
     return out
 
 
@@ -30,6 +31,10 @@ def make_metafile(case, root, out):
         kw["trailing_pad"] = bool(case.get("trailing_pad"))
     elif src == "ref_trailing":
         kw["trailing_pad"] = True
+    if case.get("extra_keys"):      # valid keys this tool never writes / optional ones in other forms
+        kw["extra_info"] = {"x-unknown": [1, "a", {"k": 2}], "source": "elsewhere", "private": 0}
+        kw["extra_top"] = {"comment": "top-level comment", "zzz": 2 ** 40, "url-list": "http://w.example/f",
+                           "nodes": [["n.example", 6881]], "created by": "other tool"}
     raw = refenc.build(tree["name"], files, P, v, single=bool(tree.get("single")), **kw)
     write_file(out, raw)
     return "ok"
@@ -181,6 +186,10 @@ def run_recheck(case):
             # the payload root itself vanished (single file removed): give the parent
             path = os.path.dirname(root)
             rec["path_mode"] = "parent"
+        cwd0 = os.getcwd()
+        if case.get("rel_paths"):           # relative spellings of both paths, from the sandbox
+            os.chdir(sbx)
+            out, path = os.path.relpath(out, sbx), os.path.relpath(path, sbx)
         try:
             from torrentfile.recheck import Checker
             if case.get("route", "lib") == "cli":
@@ -202,6 +211,8 @@ def run_recheck(case):
             rec["status"] = "exit:%s" % ex.code
         except Exception as ex:
             rec["status"] = "exc:" + type(ex).__name__
+        finally:
+            os.chdir(cwd0)
         rec.setdefault("nostream", True)
         return rec
     finally:
